@@ -149,6 +149,45 @@ class SymEnv:
         self.violations.append(Violation(what, sig, values, choices, detail))
         return False
 
+    def record_violation(self, what, signature, model, detail=None):
+        """register a counterexample found by an auxiliary query (e.g. the NRA helper)"""
+        if signature in self.seen_signatures:
+            return
+        self.seen_signatures.add(signature)
+        values = {}
+        if model is not None:
+            for n, v in self.names.items():
+                values[n] = E.model_value(model, v)
+        choices = [d for (k, _, d) in self.eng.decisions if k == 'c']
+        self.violations.append(Violation(what, signature, values, choices, detail))
+
+    def check_rel(self, term, rel, what, signature=None, timeout_ms=30000, detail=None):
+        """term rel 0 (rel in '<=', '>=', '==') by the factoring NRA procedure under the path condition"""
+        from . import nra
+        self.claims += 1
+        self.eng.stats['assert_queries'] += 1
+        import time as _t
+        t0 = _t.time()
+        r, m, info = nra.decide(term, rel, self.eng.hyps(), timeout_ms=timeout_ms)
+        self.eng.stats['solver_s'] += _t.time() - t0
+        self.eng.stats[r] += 1
+        if len(self.eng.sample_queries) < 3:
+            self.eng.sample_queries.append(dict(claim="%s %s 0" % (info.get('num', str(z3.simplify(lift(term)))[:200]), rel),
+                                                den=info.get('den'), verdict=r))
+        if r == 'unsat':
+            self.proved += 1
+            return True
+        if r == 'unknown':
+            self.inconclusive.append(what)
+            return False
+        # nicer model on the normalised claim is not attempted: replay falls back to default inputs if needed
+        claim = {'<=': lift(term) <= 0, '>=': lift(term) >= 0, '==': lift(term) == 0}[rel]
+        strong = {'<=': lift(term) >= 0.05, '>=': lift(term) <= -0.05,
+                  '==': z3.Or(lift(term) >= 0.05, lift(term) <= -0.05)}[rel]
+        m2 = self._nicer_model(claim, (), strong, m)
+        self.record_violation(what, signature or what, m2, detail)
+        return False
+
     def check_eq(self, a, b, what, tol_strong=0.125, **kw):
         la, lb = lift(a), lift(b)
         strong = z3.Or(la - lb >= tol_strong, lb - la >= tol_strong)
@@ -275,6 +314,11 @@ class ConcEnv:
             return True
         self.failed.append(dict(what=what, signature=signature or what, detail=detail or {}))
         return False
+
+    def check_rel(self, term, rel, what, signature=None, timeout_ms=None, detail=None):
+        t = float(term)
+        ok = {'<=': t <= self.tol * (1 + abs(t)), '>=': t >= -self.tol * (1 + abs(t)), '==': abs(t) <= self.tol}[rel]
+        return self.check(ok, what + " (value %g)" % t, signature=signature, detail=detail)
 
     def check_eq(self, a, b, what, **kw):
         kw.pop('tol_strong', None)
